@@ -514,6 +514,34 @@ theorem packetDecode_eq (data : Bytes) : Codec.packetDecode data = packetDecode 
   | rfl
 
 
+/-! ### _LanProtocolV3.write: the packet handed to the transport and the counter afterwards -/
+
+theorem band_4095 (x : Int) : Py.band x 4095 = x % 4096 := by
+  unfold Py.band
+  rw [show Py.bitLen 4095 = 12 by decide, show (4095:Nat) = 2^12 - 1 by decide, Nat.and_two_pow_sub_one_eq_mod]; omega
+
+/-- **tie.** `_LanProtocolV3.write` (live transport) as translated = the model's, for every key (or none), counter, payload, type and pad bytes. -/
+theorem writeV3_eq (key : Option Bytes) (pid : Int) (data : Bytes) (ptype : Int) (rand : Bytes) :
+    Codec.writeV3 key pid data ptype rand = writeV3I key pid data ptype rand := by
+  first
+  | (
+       unfold Codec.writeV3 writeV3I
+       rw [encodeHandshakeRequest_eq, encodeEncryptedRequest_eq, band_4095]
+       by_cases h6 : ptype = 6
+       · subst h6
+         rw [if_neg (by decide), if_pos rfl]
+         cases encodeEncryptedRequestI key pid data rand <;> rfl
+       · have h6' : (6 : Int) ≠ ptype := fun e => h6 e.symm
+         rw [if_pos (by ne_pos h6'), if_neg h6]
+         by_cases h0 : ptype = 0
+         · subst h0
+           rw [if_neg (by decide), if_pos rfl]
+           cases encodeHandshakeRequestI pid data <;> rfl
+         · have h0' : (0 : Int) ≠ ptype := fun e => h0 e.symm
+           rw [if_pos (by ne_pos h0'), if_neg h0])
+  | rfl
+
+
 /-! ### data_received: one iteration of the reassembly loop -/
 
 theorem findFrom_find2 (a c : UInt8) (b : Bytes) (i : Nat) :
